@@ -1083,6 +1083,7 @@ class SKEData(Packet):
     def __copy__(self):
         skd = self.__class__()
         skd.ct = self.ct[:]
+        skd.update_hlen()
         return skd
 
     def parse(self, packet):
@@ -1550,6 +1551,7 @@ class IntegrityProtectedSKEDataV1(IntegrityProtectedSKEData):
     def __copy__(self):
         skd = self.__class__()
         skd.ct = self.ct[:]
+        skd.update_hlen()
         return skd
 
     def parse(self, packet):
